@@ -449,7 +449,11 @@ def recipe(rng, fam, mrec, spec, depth, basis='cell'):
     elem, err = guarded(lambda: DC.build_element(spec), 30)
     if err:                                  # judged when executed (Basis event with err)
         return {'driver': 'lookup', 'family': fam, 'mesh': mrec, 'elem': spec, 'basis': basis, 'sels': [], 'queries': []}
-    sels, queries = plan(rng, mesh, elem, depth, trace_component(spec) if basis == 'cell' else None)
+    # the float law TraceSupport (absolute tolerance 2^-40) is recorded on meshes of ordinary size and position only:
+    # on translated / scaled copies the inverse map loses about |coordinate| / h digits, which is conditioning and not
+    # the subject of C07
+    comp = trace_component(spec) if (basis == 'cell' and 'xf' not in mrec) else None
+    sels, queries = plan(rng, mesh, elem, depth, comp)
     return {'driver': 'lookup', 'family': fam, 'mesh': mrec, 'elem': spec, 'basis': basis, 'sels': sels,
             'queries': queries}
 
